@@ -18,7 +18,7 @@ import (
 )
 
 func main() {
-	Main(map[string]PropFunc{"C01": run, "C07": run, "C08": run, "C10": run})
+	Main(map[string]PropFunc{"C01": run, "C07": run, "C08": run, "C10": run, "C14": run})
 }
 
 type cfgCase struct {
@@ -600,6 +600,44 @@ func run(ctx *Ctx) *Result {
 			}
 			if len(cmds) == 0 && c.dev.managedView(c.Bindings, c.Routes) != wantView {
 				res.Fail(sig("unchanged_reported_for_different_device"), "empty script although the device is not equivalent", c)
+			}
+		}
+		if prop == "C14" {
+			// every destination that has a route before and after has one after each command
+			// (the two halves of a joined line count as one step: check after the second half only)
+			dsts := func(d *asaDev) map[string]bool {
+				m := map[string]bool{}
+				for _, r := range d.Routes {
+					f := strings.Fields(r)
+					if len(f) >= 3 {
+						m[f[1]+" "+f[2]] = true
+					}
+				}
+				return m
+			}
+			before, after := dsts(c.dev), dsts(final)
+			joinedFirst := map[int]bool{}
+			idx := 0
+			for _, line := range strings.Split(strings.TrimSuffix(out, "\n"), "\n") {
+				if line == "" {
+					continue
+				}
+				h := strings.Split(line, "\\N ")
+				if len(h) == 2 {
+					joinedFirst[idx] = true
+				}
+				idx += len(h)
+			}
+			for k, st := range states {
+				if joinedFirst[k] {
+					continue
+				}
+				now := dsts(st)
+				for d := range before {
+					if after[d] && !now[d] {
+						res.Fail(sig("route_destination_uncovered_during_change"), fmt.Sprintf("after command %d destination %s has no route although it has one before and after", k, d), c)
+					}
+				}
 			}
 		}
 		if prop == "C07" {
